@@ -77,3 +77,57 @@ PROPS["C08"] = dict(
     assumptions=["the theorems are about Model/Arith.v; the tie to objects.rs is this run's "
                  "differential comparison through Program::compile + execute"],
 )
+
+
+def split_res(s):
+    """'(res OUTCOME (log ...))' -> (outcome kind, outcome text, log text)"""
+    if not s.startswith("(res "):
+        return (s, s, "")
+    i = s.rfind("(log")
+    out = s[5:i].strip()
+    kind = out.split(" ", 1)[0].strip("()")
+    return (kind, out, s[i:-1])
+
+
+def classify_logs(case, model, why):
+    """Evaluator-family classification: the property constrains the outcome kind and the
+    ordered host-call log; a difference only in value or error class is a broken
+    correspondence, not (by itself) a violation of this property."""
+    ik, io, il = split_res(case[1])
+    mk, mo, ml = split_res(model)
+    if "oracle" in mo:
+        return dict(kind="no-failing-input-found", why="model has no interpretation (oracle) - harness bug")
+    if ik != mk or il != ml:
+        return dict(kind="failing-input",
+                    why=f"outcome kind/log differ: impl {ik} {il} vs model {mk} {ml}")
+    return dict(kind="no-failing-input-found",
+                why="correspondence Eval.eval <-> Value::resolve broken on value/error class only")
+
+
+def cmp_eval(td, imp, model, case):
+    if imp == model:
+        return None
+    mk, mo, ml = split_res(model)
+    if mo == "(err oracle)":
+        ik, io, il = split_res(imp)
+        # uninterpreted library call: any non-crash outcome agrees
+        return None if ik in ("ok", "err") else "crash where the model has an uninterpreted call"
+    return "implementation and model answers differ"
+
+
+EVAL_GATE = ("From Coq Require Import String.\nFrom Cel.Model Require Import Eval.\n"
+             "From Cel.Proofs Require Import EvalBase.\n")
+
+PROPS["C06"] = dict(
+    streams=["C06"],
+    compare=cmp_eval,
+    classify=classify_logs,
+    gate_imports=EVAL_GATE + "From Cel.Proofs Require Import LogicProofs.",
+    exhaustive=True,
+    exhaustive_note="every tree with one operator (&&, ||, ?:) over 9 leaf kinds; every two-level "
+                    "tree of && / || over 5 leaf kinds and of ?: over 3; plus random trees of "
+                    "depth <= 4 (also inside all/map/filter bodies), not exhaustive",
+    rule="a case is a program; non-trivial when a leaf that raises or logs occurs (skipping is "
+         "observable); distinct by source text",
+    assumptions=["outcome and ordered host-call log are the observations; wall-clock is not"],
+)
